@@ -241,6 +241,7 @@ type vrfOpLog struct {
 	attempts int
 	accepted int
 	outcomes []bool
+	ops      []*LogOp // what was offered for commit
 }
 
 func (l *vrfOpLog) CommitOp(op consensus.Op) (consensus.State, error) {
@@ -249,6 +250,9 @@ func (l *vrfOpLog) CommitOp(op consensus.Op) (consensus.State, error) {
 		ok = l.outcomes[l.attempts]
 	}
 	l.attempts++
+	if lo, isOp := op.(*LogOp); isOp {
+		l.ops = append(l.ops, lo)
+	}
 	if !ok {
 		return nil, errors.New("raft: commit failed")
 	}
@@ -262,6 +266,7 @@ func (l *vrfOpLog) Rollback(consensus.State) error               { return nil }
 var vrfRedirects []int // per attempt: 0 = we are the leader, 1 = redirected ok, 2 = redirect failed
 var vrfRedirectCalls int
 var vrfRedirectAccepted int
+var vrfRedirectArgs []interface{}
 
 // (engine only) stands for redirectToLeader, whose own retry loop is checked by C17
 func vrfRedirectModel(cc *Consensus, method string, arg interface{}) (bool, error) {
@@ -270,6 +275,7 @@ func vrfRedirectModel(cc *Consensus, method string, arg interface{}) (bool, erro
 		k = vrfRedirects[vrfRedirectCalls]
 	}
 	vrfRedirectCalls++
+	vrfRedirectArgs = append(vrfRedirectArgs, arg)
 	switch k {
 	case 1:
 		vrfRedirectAccepted++
@@ -285,14 +291,46 @@ func vrfRedirectModel(cc *Consensus, method string, arg interface{}) (bool, erro
 func VrfC01Commit() {
 	retries := vrf_choice("commit_retries", vrf_param("max_retries")+1)
 	oplog := &vrfOpLog{}
-	vrfRedirects, vrfRedirectCalls, vrfRedirectAccepted = nil, 0, 0
+	vrfRedirects, vrfRedirectCalls, vrfRedirectAccepted, vrfRedirectArgs = nil, 0, 0, nil
 	for i := 0; i <= retries; i++ {
 		vrfRedirects = append(vrfRedirects, vrf_choice("redirect", 3))
 		oplog.outcomes = append(oplog.outcomes, vrf_nondet_bool("commit_ok"))
 	}
 	cc := &Consensus{ctx: context.Background(), config: &Config{CommitRetries: retries}, consensus: oplog}
-	pin := api.PinCid(vrfCid(0))
-	err := cc.LogPin(context.Background(), pin)
+	// any kind of pin: the depth of a shard or cluster-DAG entry is not the one its mode implies
+	pin := vrfSymbolicPin(0, "new")
+	if vrf_choice("depth_not_implied_by_mode", 2) == 1 {
+		pin.Mode = api.PinModeRecursive
+	}
+	submitted := *pin
+	submitted.Allocations = append([]peer.ID{}, pin.Allocations...)
+	unpin := vrf_choice("unpin", 2) == 1
+	var err error
+	if unpin {
+		err = cc.LogUnpin(context.Background(), pin)
+	} else {
+		err = cc.LogPin(context.Background(), pin)
+	}
+	// whatever is offered for commit - locally or through the leader - is the submitted pin
+	wantType := int(LogOpType(LogOpPin))
+	if unpin {
+		wantType = int(LogOpType(LogOpUnpin))
+	}
+	for _, lo := range oplog.ops {
+		vrf_assert(int(lo.Type) == wantType, "C01.commit.same-operation")
+		if unpin {
+			vrf_assert(lo.Cid != nil && lo.Cid.Cid.Equals(submitted.Cid), "C01.commit.same-pin")
+		} else {
+			vrf_assert(vrfSamePin(lo.Cid, &submitted), "C01.commit.same-pin")
+		}
+	}
+	for _, a := range vrfRedirectArgs {
+		p, isPin := a.(*api.Pin)
+		vrf_assert(isPin && p != nil && p.Cid.Equals(submitted.Cid), "C01.commit.same-pin")
+		if isPin && p != nil && !unpin {
+			vrf_assert(vrfSamePin(p, &submitted), "C01.commit.same-pin")
+		}
+	}
 	accepted := oplog.accepted + vrfRedirectAccepted
 	vrf_note_int("accepted", accepted)
 	if err == nil {
